@@ -1,7 +1,8 @@
 (* C18, WebSocket client: notifications go to the subscription that owns their server id, and to none
    after it is unsubscribed — proved for every event sequence in which no reconnect begins while the
    receive loop is inside a frame (ghost flag w_straddle) or a Subscribe() is registering
-   (w_substraddle); refuted without the first hypothesis. *)
+   (w_substraddle); refuted without the first hypothesis (receive loop between getActiveSub and the
+   hand-over of a notification; the confirmation window D18c is closed by the generation check). *)
 From Coq Require Import List NArith Lia Bool Arith.
 From FFS Require Import WsClient.Model WsClient.Spec WsClient.ProofsWsBase WsClient.ProofsWsPairing
   WsClient.ProofsWsResub.
@@ -10,7 +11,7 @@ Import ListNotations.
 Definition no_act (w : wstate) (s : nat) : Prop := forall x, ~ In (x, s) (w_act w).
 Definition no_pend (w : wstate) (s : nat) : Prop := forall i, ~ In (i, s) (w_pend w).
 Definition r_on (p : rpc) (s : nat) : bool :=
-  match p with RConfirm s' _ _ | RNotify s' _ _ => (s' =? s)%nat | _ => false end.
+  match p with RConfirm s' _ _ _ | RNotify s' _ _ => (s' =? s)%nat | _ => false end.
 Definition quiet (w : wstate) (s : nat) : Prop := no_act w s /\ no_pend w s /\ r_on (w_rpc w) s = false.
 Definition todo' (h : rcpc) : list nat :=
   match h with HCalls _ ss | HSubs ss | HSend _ _ ss => ss | HIdle => [] end.
@@ -32,7 +33,7 @@ Record invD (w : wstate) : Prop := {
   d_pend_noact : forall i s, In (i, s) (w_pend w) -> no_act w s;
   d_early : forall s, early (w_spc w s) = true -> quiet w s;
   d_todo : forall s, In s (todo' (w_hpc w)) -> quiet w s;
-  d_conf : forall s x t, w_rpc w = RConfirm s x t -> no_act w s /\ no_pend w s;
+  d_conf : forall s x t g, w_rpc w = RConfirm s x t g -> no_act w s /\ no_pend w s;
   d_uniq : forall i i' s, In (i, s) (w_pend w) -> In (i', s) (w_pend w) -> i = i';
   d_confU : forall s, In s (w_conf w) -> w_upc w s = UNew;
   d_newU : forall s, w_spc w s = SNew -> w_upc w s = UNew;
@@ -84,7 +85,7 @@ Ltac use_in :=
   | H : In _ (_ :: _) |- _ => destruct H as [H|H]; [try discriminate H; try (inversion H; subst; clear H)|]
   | H : In _ [] |- _ => destruct H
   | H : Some _ = Some _ |- _ => inversion H; subst; clear H
-  | H : RConfirm _ _ _ = RConfirm _ _ _ |- _ => inversion H; subst; clear H
+  | H : RConfirm _ _ _ _ = RConfirm _ _ _ _ |- _ => inversion H; subst; clear H
   | H : RNotify _ _ _ = RNotify _ _ _ |- _ => inversion H; subst; clear H
   | H : alookup _ _ = Some _ |- _ => apply alookup_In in H
   | H : nmem _ _ = true |- _ => apply nmem_In in H
@@ -127,9 +128,9 @@ Ltac sat_in :=
   | A : forall x s, In (x, s) (w_act ?w) -> _ /\ _, H : In (?x, ?s) (w_act ?w) |- _ => upose (A x s H)
   | A : forall i s, In (i, s) (w_pend ?w) -> forall x, ~ In (x, s) (w_act ?w), H : In (?i, ?s) (w_pend ?w) |- _ => upose (A i s H)
   | A : forall i s, In (i, s) (w_pend ?w) -> (i <= _)%N, H : In (?i, ?s) (w_pend ?w) |- _ => upose (A i s H)
-  | A : forall s x t, w_rpc ?w = RConfirm s x t -> _, H : w_rpc ?w = RConfirm ?s ?x ?t |- _ => upose (A s x t H)
+  | A : forall s x t g, w_rpc ?w = RConfirm s x t g -> _, H : w_rpc ?w = RConfirm ?s ?x ?t ?g |- _ => upose (A s x t g H)
   | A : forall s x t, w_rpc ?w = RNotify s x t -> _, H : w_rpc ?w = RNotify ?s ?x ?t |- _ => upose (A s x t H)
-  | A : forall s x t, RConfirm ?s0 ?x0 ?t0 = RConfirm s x t -> _ |- _ => upose (A s0 x0 t0 eq_refl)
+  | A : forall s x t g, RConfirm ?s0 ?x0 ?t0 ?g0 = RConfirm s x t g -> _ |- _ => upose (A s0 x0 t0 g0 eq_refl)
   | A : forall s x t, RNotify ?s0 ?x0 ?t0 = RNotify s x t -> _ |- _ => upose (A s0 x0 t0 eq_refl)
   end.
 
@@ -237,10 +238,10 @@ Qed.
 
 Lemma d_conf_step w e w' :
   invA w -> invC0 w -> w_straddle w' = false -> w_substraddle w' = false -> invD w -> wstep w e = Some w' ->
-  forall s x t, w_rpc w' = RConfirm s x t -> no_act w' s /\ no_pend w' s.
+  forall s x t g, w_rpc w' = RConfirm s x t g -> no_act w' s /\ no_pend w' s.
 Proof.
   intros IA IC Hs1 Hs2 D H. start IA IC D H e; flags Hs1 Hs2;
-    intros s0 x0 t0 Hr; try discriminate Hr; unfold clear_subs in *;
+    intros s0 x0 t0 g0 Hr; try discriminate Hr; unfold clear_subs in *;
     (split; [intros x1 Hin|intros i1 Hin]);
     use_in; split_upd; wsimp; sat_in; sat_nat; rew_all; simp_hyps;
     try fin.
@@ -462,21 +463,19 @@ Proof.
   - intros t'. unfold wstep. rewrite H. reflexivity.
 Qed.
 
-(* Without the first hypothesis the statement is false of the model (D18c): the receive loop has taken
-   the confirmation of subscription 0 (server id 7) off the pending table when the connection drops;
-   handleReconnect clears the tables and re-requests 0; the receive loop then records 7 as active; the
-   new confirmation (server id 8) adds a second entry.  Unsubscribe removes only 8; a later
-   notification carrying 7 is handed to the unsubscribed subscription, whose channel is closed. *)
+(* Without the first hypothesis the statement is false of the model: the receive loop has looked up the owner
+   of a notification (getActiveSub: subscription 0, server id 7) and has not yet entered the select that
+   hands it over when the connection drops; handleReconnect clears the tables (currentSubID = "") and
+   re-requests 0; Unsubscribe then finds no current id, so it sends no eth_unsubscribe (nothing it would
+   have to wait for the receive loop for) and closes the notifications channel; the receive loop now
+   enters the select: a send on a closed channel is one of its ready cases. *)
 Definition routing_witness : list wev :=
   [ESubCfg 0; ESubInflight 0; ESubSend 0 true;
-   EFrame (FReply (Some 1%N) false (Some 7%N));          (* popInflight ... *)
+   EFrame (FReply (Some 1%N) false (Some 7%N)); ERAddActive; ESubWait 0;
+   EFrame (FNotif (Some 7%N) 99%N);                     (* getActiveSub ... *)
    EClear; ERcInflight 0; ERcSend true;                 (* ... the reconnect runs in between ... *)
-   ERAddActive; ESubWait 0;                             (* ... addActiveSub(s, 7) *)
-   EFrame (FReply (Some 2%N) false (Some 8%N)); ERAddActive;
-   EUnsubRemove 0 1; ECallReg 1; ECallSend 1 true;
-   EFrame (FReply (Some 3%N) false None); ERDeliver; ECallRecv 1; ECallRemove 1;
-   EUnsubAfterCall 0; EUnsubClose 0;
-   EFrame (FNotif (Some 7%N) 99%N); ERNotifySend].
+   EUnsubRemove 0 1; EUnsubClose 0;                     (* ... and an Unsubscribe that needs no reply *)
+   ERNotifySend].
 
 (* evaluated as one boolean, so that the kernel re-checks a single vm_compute and no state is printed *)
 Definition routing_witness_ok : bool :=
@@ -501,6 +500,25 @@ Proof.
   - destruct (w_upc w 0) as [| | |[]]; try discriminate. reflexivity.
   - exact P.
 Qed.
+
+(* The interleaving D18c (popInflight ; reconnect ; addActiveSub) is harmless in the repaired code (connection
+   generation checked in addActiveSub): the old connection's server id 7 is not recorded, after the new
+   confirmation (8) and the Unsubscribe nothing is routed to subscription 0, a notification carrying 7 is dropped. *)
+Example d18c_trace_is_safe :
+  match wrun [ESubCfg 0; ESubInflight 0; ESubSend 0 true;
+              EFrame (FReply (Some 1%N) false (Some 7%N));
+              EClear; ERcInflight 0; ERcSend true;
+              ERAddActive; ESubWait 0;
+              EFrame (FReply (Some 2%N) false (Some 8%N)); ERAddActive;
+              EUnsubRemove 0 1; ECallReg 1; ECallSend 1 true;
+              EFrame (FReply (Some 3%N) false None); ERDeliver; ECallRecv 1; ECallRemove 1;
+              EUnsubAfterCall 0; EUnsubClose 0;
+              EFrame (FNotif (Some 7%N) 99%N)] winit with
+  | Some w => negb (w_panic w) && w_straddle w &&
+              match w_act w, w_rpc w, w_upc w 0 with [], RIdle, UDone true => true | _, _, _ => false end
+  | None => false
+  end = true.
+Proof. vm_compute. reflexivity. Qed.
 
 (* The interleaving D18a (popInflight ; Unsubscribe ; addActiveSub) is harmless in the repaired code:
    the subscription is not re-activated and the later notification is dropped. *)
